@@ -109,6 +109,140 @@ class _Lazy:
         return str(self)
 
 
+_INDIRECT = ("globals", "locals", "vars", "exec", "eval", "setattr", "__import__")
+
+
+def _bindings(root: ast.AST, into_scopes: bool, skip: frozenset = frozenset()) -> Tuple[Dict[str, int], bool]:
+    """Names bound by the statements under `root` (every binding form) with the first line that binds each; with
+    into_scopes=False the bodies of nested functions and classes are skipped (only their names and `global` declarations
+    count). Second result: the code can bind names indirectly."""
+    bound: Dict[str, int] = {}
+    indirect = False
+
+    def add(name, n, line=None):
+        ln = line if line is not None else getattr(n, "lineno", 0) or 0
+        bound[name] = min(bound.get(name, ln), ln)
+
+    todo = [(c, 0) for c in ast.iter_child_nodes(root)] if isinstance(root, ast.Module) else [(root, 0)]
+    while todo:
+        n, ln0 = todo.pop()
+        ln0 = getattr(n, "lineno", ln0) or ln0
+        scope = isinstance(n, (ast.FunctionDef, ast.AsyncFunctionDef, ast.ClassDef, ast.Lambda))
+        if isinstance(n, ast.Name):
+            if isinstance(n.ctx, (ast.Store, ast.Del)):
+                if id(n) not in skip:
+                    add(n.id, n)
+            elif n.id in _INDIRECT:
+                indirect = True
+        elif isinstance(n, (ast.FunctionDef, ast.AsyncFunctionDef, ast.ClassDef)):
+            add(n.name, n)
+        elif isinstance(n, ast.arg):
+            add(n.arg, n)
+        elif isinstance(n, (ast.Import, ast.ImportFrom)):
+            for a in n.names:
+                if a.name == "*":
+                    indirect = True
+                add((a.asname or a.name).split(".")[0], n)
+        elif isinstance(n, ast.ExceptHandler) and n.name:
+            add(n.name, n)
+        elif isinstance(n, (ast.Global, ast.Nonlocal)):
+            for x in n.names:
+                add(x, n, 0)  # declared to live in another scope: never "bound later in this one"
+        elif isinstance(n, (ast.MatchAs, ast.MatchStar)) and n.name:
+            add(n.name, n, ln0)
+        elif isinstance(n, ast.MatchMapping) and n.rest:
+            add(n.rest, n, ln0)
+        elif type(n).__name__ in ("TypeVar", "ParamSpec", "TypeVarTuple"):
+            add(n.name, n, ln0)
+        if scope and not into_scopes:
+            # the names a nested scope declares global are module bindings; whether it can bind indirectly still matters
+            for m in ast.walk(n):
+                if isinstance(m, ast.Global):
+                    for x in m.names:
+                        add(x, m, 0)
+                elif isinstance(m, ast.Name) and m.id in _INDIRECT:
+                    indirect = True
+                elif isinstance(m, ast.ImportFrom) and any(a.name == "*" for a in m.names):
+                    indirect = True
+            continue
+        todo.extend((c, ln0) for c in ast.iter_child_nodes(n))
+    return bound, indirect
+
+
+def _never_bound(name: str, module: Module, node) -> bool:
+    """True when reading `name` at `node` is a NameError (or its subclass UnboundLocalError) on every execution:
+      - Python has no builtin of that name, no statement at module level binds it (nor a `global` declaration anywhere), and the
+        module has no indirect way of binding names; and
+      - within the innermost function around the read (nested scopes included, over-approximating closures) every statement
+        that binds the name lies on a later line, the read is not inside a loop of that function and not inside a lambda or a
+        generator expression - so no binding can have run before the read."""
+    import builtins
+    line = getattr(node, "lineno", 0) if node is not None else 0
+    if not line or hasattr(builtins, name) or name.startswith("__"):
+        return False
+    cache = module.__dict__.get("_bound_names")
+    if cache is None:
+        top, indirect = _bindings(module.tree, into_scopes=False)
+        cache = module.__dict__["_bound_names"] = {"top": top, "indirect": indirect, "site": {}}
+    if cache["indirect"] or name in cache["top"]:
+        return False
+    if line not in cache["site"]:
+        def inside(x):
+            return x.lineno <= line <= (x.end_lineno or x.lineno)
+        acc: Optional[Dict[str, int]] = {}
+        in_loop = False
+        lazy = False
+        own: frozenset = frozenset()
+        body = module.tree.body
+        func = None
+        while True:
+            st = next((x for x in body if inside(x)), None)
+            if st is None:
+                if func is None:
+                    acc = None  # not inside a statement of the module as parsed: no claim
+                break
+            if isinstance(st, ast.ClassDef) and any(inside(x) for x in st.body):
+                # a class body's own bindings are visible to reads in the body (not to its methods: over-approximated)
+                for x in st.body:
+                    for k, v in _bindings(x, into_scopes=False)[0].items():
+                        acc[k] = 0
+                body = st.body
+                continue
+            if isinstance(st, (ast.FunctionDef, ast.AsyncFunctionDef)) and any(inside(x) for x in st.body):
+                # names of the enclosing functions stay candidates for a closure: kept as "bound before"
+                if func is not None:
+                    for k in _bindings(func, into_scopes=True)[0]:
+                        acc[k] = 0
+                func, in_loop = st, False
+                body = st.body
+                continue
+            if func is None:
+                for k in _bindings(st, into_scopes=True)[0]:
+                    acc[k] = 0
+                break
+            # a compound statement of the function: descend into the block holding the read
+            blocks = [getattr(st, f, None) for f in ("body", "orelse", "finalbody")]
+            blocks += [h.body for h in getattr(st, "handlers", [])] + [c.body for c in getattr(st, "cases", [])]
+            inner = next((b for b in blocks if isinstance(b, list) and b and isinstance(b[0], ast.stmt) and any(inside(x) for x in b)), None)
+            if isinstance(st, (ast.For, ast.AsyncFor, ast.While)):
+                in_loop = True
+            if inner is None:
+                lazy = any(isinstance(x, (ast.Lambda, ast.GeneratorExp, ast.FunctionDef, ast.AsyncFunctionDef, ast.ClassDef)) for x in ast.walk(st))
+                if isinstance(st, (ast.Assign, ast.AnnAssign, ast.AugAssign)) and not any(isinstance(x, ast.NamedExpr) for x in ast.walk(st)):
+                    # the statement's own targets are stored after its value (and, augmented, its target) has been read
+                    tg = st.targets if isinstance(st, ast.Assign) else [st.target]
+                    own = frozenset(id(x) for t in tg for x in ast.walk(t) if isinstance(x, ast.Name) and isinstance(x.ctx, ast.Store))
+                break
+            body = inner
+        if acc is not None and func is not None:
+            for k, v in _bindings(func, into_scopes=True, skip=own)[0].items():
+                # bound on the read's own line or earlier, inside a loop, or read lazily: it may have run before the read
+                acc[k] = min(acc.get(k, v), v if (v > line and not in_loop and not lazy) else 0)
+        cache["site"][line] = (acc, line)
+    acc, _ = cache["site"][line]
+    return acc is not None and (name not in acc or acc[name] > line)
+
+
 def is_strlike(v: V) -> bool:
     return isinstance(v, Str) or (isinstance(v, Const) and isinstance(v.v, str)) or \
         (isinstance(v, Sym) and v.hint == "str")
@@ -188,6 +322,12 @@ class ExprMixin(CallMixin):
             return Const({"True": True, "False": False, "None": None}[name])
         if name == "NotImplemented":
             return Sym("NotImplemented")
+        if _never_bound(name, module, node):
+            # no statement of the module binds the name in any scope and it is not a builtin: reading it is a NameError on
+            # every execution (typically the assignment was lost and the uses were kept)
+            self.cur_where = module.loc(node) if node is not None else module.rel
+            self.may_raise("builtins.NameError", name, definite=True)
+            raise _Raise(self.make_exc("builtins.NameError"), self.cur_where)
         raise AnalysisError(f"unresolved name {name}", module.loc(node) if node is not None else module.rel)
 
     def ref_value(self, q: str) -> V:
@@ -463,6 +603,18 @@ class ExprMixin(CallMixin):
                 self.may_raise("builtins.ArithmeticError", type(op).__name__)
         if isinstance(op, ast.Mult) and isinstance(l, PyList) and isinstance(r, Const) and isinstance(r.v, int):
             return PyList(l.items * r.v)
+        if isinstance(op, (ast.Sub, ast.Div, ast.FloorDiv, ast.Pow, ast.BitOr, ast.BitAnd, ast.BitXor, ast.LShift, ast.RShift, ast.MatMult)):
+            # str defines none of these operators (nor their reflections): with text on one side and a value whose class is
+            # known not to define them on the other, the operation is a TypeError on every execution
+            def text(v):
+                return isinstance(v, Str) or (isinstance(v, Const) and isinstance(v.v, str))
+
+            def plain(v):
+                return text(v) or isinstance(v, (NodeV, NewNode, PyList, PyTuple, PyDict, Const)) or \
+                    (isinstance(v, Sym) and v.op == "visit" and v.args[0] == "self" and getattr(self, "visit_returns_text", False))
+            if (text(l) and plain(r)) or (text(r) and plain(l)):
+                self.may_raise("builtins.TypeError", f"str {type(op).__name__} {_describe(r)}", definite=True)
+                raise _Raise(self.make_exc("builtins.TypeError"), self.cur_where)
         sym = {ast.Sub: "-", ast.Mult: "*", ast.Div: "/", ast.Mod: "%", ast.FloorDiv: "//", ast.Pow: "**",
                ast.BitOr: "|", ast.BitAnd: "&", ast.BitXor: "^", ast.LShift: "<<", ast.RShift: ">>",
                ast.MatMult: "@"}.get(type(op), type(op).__name__)
